@@ -54,7 +54,7 @@ func init() {
 	reg(&Rule{ID: "R-C16-shared", Props: []string{"C16"}, Floor: 2,
 		Doc: "the iterator passed to gojq.WithInputIter is the one process consumes (or newNullInputIter under InputNull)",
 		Run: ruleC16Shared})
-	reg(&Rule{ID: "R-C16-sticky", Props: []string{"C16"}, Floor: 16,
+	reg(&Rule{ID: "R-C16-sticky", Props: []string{"C16", "C15"}, Floor: 16,
 		Doc: "every inputIter implementation: Next begins with the sticky err test; end-of-input and decode-error returns store err first; Close makes it terminal",
 		Run: ruleC16Sticky})
 	reg(&Rule{ID: "R-C17-window", Props: []string{"C17"}, Floor: 1,
